@@ -43,7 +43,9 @@ ROUTER = T.obj(f"{RT}:Router", mib=MIB, ego_position_vector_lock=T.lock, ego_pos
                link_layer=T.opt(T.opaque("link_layer")), location_table=T.opaque("location_table"),
                sign_service=T.opt(T.opaque("sign_service")), verify_service=T.opt(T.opaque("verify_service")),
                indication_callback=T.opt(T.callback), sequence_number_lock=T.lock, sequence_number=T.int(0, 65534),
-               _beacon_reset_event=T.opt(T.opaque("event")), _ls_lock=T.lock, _cbf_lock=T.lock)
+               _beacon_reset_event=T.opt(T.opaque("event")), _ls_lock=T.lock, _cbf_lock=T.lock,
+               _cbf_buffer=T.opaque("cbf_buffer"), _ls_timers=T.opaque("ls_timers"),
+               _ls_retransmit_counters=T.opaque("ls_counters"), _ls_packet_buffers=T.opaque("ls_buffers"))
 PTT_SHB = T.rec(f"{SAP}:PacketTransportType", header_type=T.enum(f"{SAP}:HeaderType", only=["TSB"]),
                 header_subtype=T.enum(f"{SAP}:TopoBroadcastHST", only=["SINGLE_HOP"]))
 PTT_GBC = T.rec(f"{SAP}:PacketTransportType", header_type=T.enum(f"{SAP}:HeaderType", only=["GEOBROADCAST"]),
@@ -58,3 +60,15 @@ def gnreq(ptt):
     return T.rec(f"{SAP}:GNDataRequest", packet_transport_type=ptt, traffic_class=TC, area=AREA, data=T.bytes(0, 1500),
                  security_permissions=T.bytes(0, 64), destination=T.opt(GNADDR),
                  security_profile=T.enum("flexstack.security.security_profiles:SecurityProfile"))
+
+from pyvc.shapes import CLASS_SHAPES
+CLASS_SHAPES.update({f"{GA}:MID": MID, f"{GA}:GNAddress": GNADDR, f"{PV}:LongPositionVector": LPV,
+                     f"{PV}:ShortPositionVector": SPV, f"{CH}:CommonHeader": COMMON, f"{GBCH}:GBCExtendedHeader": GBC,
+                     f"{TSBH}:TSBExtendedHeader": TSB, f"{GUCH}:GUCExtendedHeader": GUC,
+                     f"{LSH}:LSRequestExtendedHeader": LSREQ, f"{LSH}:LSReplyExtendedHeader": LSREP,
+                     f"{SAP}:PacketTransportType": PTT, f"{MIBM}:MIB": MIB})
+IND = T.rec(f"{SAP}:GNDataIndication", packet_transport_type=PTT, source_position_vector=LPV, traffic_class=TC,
+            destination_area=T.opt(AREA), data=T.bytes(0, 2000), remaining_packet_lifetime=T.opt(T.float()),
+            remaining_hop_limit=T.opt(T.int()))
+CLASS_SHAPES[f"{SAP}:GNDataIndication"] = IND
+CLASS_SHAPES[f"{SAP}:GNDataRequest"] = GNREQ
